@@ -2,10 +2,12 @@ SPECIFICATION GSpec
 CONSTANTS
   Tables = {"gap3"}
   Shapes = {"rw", "w"}
+  Modes = {"echo", "none", "clamp", "raise"}
+  Setups = {"rw-echo", "w-clamp", "rw-raise"}
   Xs = {0, 1, 2, 3, 4, 5, 6, 7, 8}
-  XW = {2}
-  WPos = {0}
-  APos = {2}
+  XW = {3}
+  WPos = {2}
+  APos = {0}
   Reads = {"ri"}
   Depth = 7
 CONSTRAINT Bound
